@@ -20,6 +20,19 @@ from sa.bitabs_models import fn_int
 PMOD = "hytera.pdu"
 DECODERS = [("hdap", "HDAP"), ("hrnp", "HRNP"), ("hstrp", "HSTRP")]
 KEEP_CONCRETE = {"opcode", "raw_opcode", "has_option", "version", "header", "pkt_type"}
+# (class, opcode) pairs whose writer output the reader takes back on today's tree (confirmed by hand: the captured ones, the siblings
+# derived from them and the five RRS opcodes the reader lists) — the reference for later changes: each of them must still be written
+# and read back to an object.  Opcodes outside the table (TMP work orders: serialised generically, not parsed) are not implemented.
+IMPLEMENTED_OPCODES = {
+    "RadioRegistrationService": ("RadioRegistrationRequest", "RadioRegistrationAnswer", "RadioGoingOffline", "RegistrationStatusCheckRequest", "RegistrationStatusCheckAnswer"),
+    "LocationProtocol": ("StandardRequest", "StandardReport"),
+    "RadioControlProtocol": ("BroadcastMessageConfigurationReply", "BroadcastMessageConfigurationRequest", "BroadcastStatusConfigurationReply",
+                             "BroadcastStatusConfigurationRequest", "CallReply", "CallRequest", "RadioIDAndRadioIPQueryRequest", "RadioStatusReport",
+                             "SendTalkerAliasReply", "StatusChangeNotificationReply", "StatusChangeNotificationRequest", "UnknownService",
+                             "ZoneAndChannelOperationReply", "ZoneAndChannelOperationRequest", "RepeaterBroadcastTransmitStatus"),
+    "TextMessageProtocol": ("GroupShortData", "GroupShortDataAck", "PrivateShortData", "PrivateShortDataAck", "SendGroupMessage", "SendGroupMessageAck",
+                            "SendPrivateMessage", "SendPrivateMessageAck"),
+}
 MIN_SHAPES = {"RadioRegistrationService": 2, "LocationProtocol": 2, "TextMessageProtocol": 3, "RadioControlProtocol": 4, "HRNP": 4, "HSTRP": 3}
 
 
@@ -281,6 +294,9 @@ def run(ctx):
     # (constant evaluation; kept when writer and reader accept it), so opcodes without a capture are covered too
     hd_ci, hd_fb = decoders["HDAP"]
     derived = 0
+    n_sib_ok = 0
+    sib_ok, captured_ops = set(), set()
+    ctx.rule("shape/sibling-opcodes", "a captured PDU re-encoded under every other opcode of its service: whatever the writer serialises, the reader of the class parses back to an object (opcodes the writer itself refuses are not implemented and skipped)")
     for shp, (fname, raw, dname) in list(shapes.items()):
         if dname != "HDAP":
             continue
@@ -294,6 +310,7 @@ def run(ctx):
         disc = [k for k in ("opcode", "specific_service") if isinstance(o.attrs.get(k), EnumMember)]
         if not disc:
             continue
+        captured_ops.add((o.cls.name, o.attrs[disc[0]].name))
         eci = None
         for c_ in repo.all_classes():
             if c_.name == o.attrs[disc[0]].cls and repo.is_enum(c_):
@@ -311,17 +328,25 @@ def run(ctx):
                     gs = repo.cls(f"{PMOD}.location_protocol", "LocationProtocolGeneralService")
                     ob.attrs["general_service"] = I0.call(repo.find_method(gs, "from_specific"), [m], {})
                 w = I0.call(repo.find_method(ob.cls, "as_bytes"), [ob], {})
+                st.__dict__["sibling_written"] = True
                 ob2 = I0.call(hd_fb, [w], {})
                 if not isinstance(ob2, AObj):
-                    raise PathRaise("ValueError", "reader returns no object for this opcode")
+                    raise PathRaise("ValueError", f"reader returns {ob2!r}")
                 w2 = I0.call(repo.find_method(ob2.cls, "as_bytes"), [ob2], {})
                 return ob2, w, w2
             try:
                 rv = explore(run_v, max_paths=4)
             except AnalysisError:
                 continue
+            if len(rv) == 1 and rv[0][1][0] == "raise" and rv[0][0].__dict__.get("sibling_written") and m.name in IMPLEMENTED_OPCODES.get(o.cls.name, ()):
+                # the writer serialises this opcode of the service, the reader does not take its own output back
+                ctx.ob("shape/sibling-opcodes", f"{o.cls.name}[{m.name}] | from capture {raw[:6].hex()}…", False,
+                       f"the writer serialises opcode {m.name}, the reader of the same class answers: {rv[0][1][1].exc} {rv[0][1][1].msg}", hd_fb.loc)
+                continue
             if len(rv) != 1 or rv[0][1][0] != "ok":
                 continue
+            n_sib_ok += 1
+            sib_ok.add((o.cls.name, m.name))
             ob2, w, w2 = rv[0][1][1]
             bw, bw2 = bits_of(I0, w), bits_of(I0, w2)
             if bw is None or bw != bw2 or not isinstance(ob2, AObj) or ob2.attrs.get(disc[0]) != m:
@@ -333,7 +358,50 @@ def run(ctx):
             if shp2 not in shapes:
                 shapes[shp2] = (fname + "+sibling", rawv, "HDAP")
                 derived += 1
+    # ---- phase 1c: the five RRS messages built through the constructor (no capture is a bare RRS HDAP frame)
+    rrs_ci = repo.cls(f"{PMOD}.radio_registration_service", "RadioRegistrationService")
+    rrs_ops = repo.enum_members(repo.cls(f"{PMOD}.radio_registration_service", "RRSTypes"))
+    rip_ci = repo.cls(f"{PMOD}.radio_ip", "RadioIP")
+    for m in rrs_ops.values():
+        def run_b(st, m=m):
+            I0.st = st
+            ip = I0.construct(rip_ci, [], {"radio_id": 2305, "subnet": 10})
+            ob = I0.construct(rrs_ci, [], {"opcode": m, "radio_ip": ip, "renew_time_seconds": 3600})
+            w = I0.call(repo.find_method(ob.cls, "as_bytes"), [ob], {})
+            st.__dict__["sibling_written"] = True
+            ob2 = I0.call(hd_fb, [w], {})
+            if not isinstance(ob2, AObj):
+                raise PathRaise("ValueError", f"reader returns {ob2!r}")
+            return ob2, w
+        try:
+            rb = explore(run_b, max_paths=4)
+        except AnalysisError:
+            continue
+        if len(rb) == 1 and rb[0][1][0] == "raise" and rb[0][0].__dict__.get("sibling_written") and m.name in IMPLEMENTED_OPCODES.get(rrs_ci.name, ()):
+            ctx.ob("shape/sibling-opcodes", f"{rrs_ci.name}[{m.name}] | built through the constructor", False,
+                   f"the writer serialises opcode {m.name}, the reader answers: {rb[0][1][1].exc} {rb[0][1][1].msg}", hd_fb.loc)
+            continue
+        if len(rb) != 1 or rb[0][1][0] != "ok":
+            continue
+        ob2, w = rb[0][1][1]
+        bw = bits_of(I0, w)
+        if bw is None or not all(isinstance(b, F) and b.is_const for b in bw) or ob2.attrs.get("opcode") != m:
+            continue
+        sib_ok.add((rrs_ci.name, m.name))
+        n_sib_ok += 1
+        rawv = bytes(int("".join(str(b.c) for b in bw[i:i + 8]), 2) for i in range(0, len(bw), 8))
+        shp2 = ("HDAP", shape_of(ob2))
+        if shp2 not in shapes:
+            shapes[shp2] = ("built:RRS", rawv, "HDAP")
+            derived += 1
     ctx.extra["derived_sibling_shapes"] = derived
+    if os.environ.get("C12_DEBUG_SIB"):
+        print("SIB", sorted(sib_ok), "CAP", sorted(captured_ops))
+    missing_sib = sorted((c_, m_) for c_, ms in IMPLEMENTED_OPCODES.items() for m_ in ms if (c_, m_) not in sib_ok and (c_, m_) not in captured_ops)
+    for c_, m_ in missing_sib:
+        ctx.ob("shape/sibling-opcodes", f"{c_}[{m_}] | implemented opcode", False,
+               f"opcode {m_} of {c_} was written and read back on the reference tree; now neither a capture nor a re-encoded sibling of it comes back from the reader as an object of that opcode", hd_fb.loc)
+    ctx.ob("shape/sibling-opcodes", "all services", n_sib_ok >= 8, f"{n_sib_ok} (capture, other opcode) pairs written and read back, {derived} new shapes among them", hd_fb.loc)
     ctx.extra["captures"] = len(sd)
     ctx.extra["shapes"] = len(shapes)
     fam_count = {}
@@ -405,7 +473,10 @@ def explore_or_blame(run, max_paths):
 def analyse_shape(ctx, repo, raw, dname, fb, fam_count, variant, concrete=()):
     I = Interp(repo)
     I.uninterpreted_arith = True   # lengths and counters computed from symbolic fields are compared structurally
-    I.assert_ranges = True         # a range assertion that some in-range field value fails is an explored (raising) path
+    # a range assertion that some in-range field value fails is an explored (raising) path — for the fields whose full wire width IS
+    # the in-range domain by the property's own words (radio ids 0..2^24-1, request ids 0..2^32-1); other fields may be narrower
+    # than their wire width by documented choice (RRS renew time 1..0xFFFE in four octets) and their assertions stay preconditions
+    I.assert_ranges = lambda fi, st_: (fi.cls is not None and fi.cls.name == "RadioIP") or "request_id" in ast.unparse(st_.test)
     install(I, repo)
     hdap_ci = repo.cls(f"{PMOD}.hdap", "HDAP")
 
@@ -450,6 +521,12 @@ def analyse_shape(ctx, repo, raw, dname, fb, fam_count, variant, concrete=()):
                 ctx.ob("shape/no-crash", f"{dname} | capture {raw[:8].hex()}…{'/' + variant if variant else ''}", False, str(v), fb.loc)
                 continue
             raise AnalysisError(f"shape {dname} {raw[:12].hex()}: {v}")
+        if k == "raise" and v.exc == "AssertionError" and "[in-range value refused]" not in v.msg:
+            # an assertion of the constructor / reader refuses some values of a field that was symbolised over its whole wire
+            # width: a documented precondition (RRS renew time 1..0xFFFE in four octets), not a crash — except for the fields whose
+            # wire width is the in-range domain by the property's words (tagged by the interpreter)
+            ctx.info(f"shape {dname} {raw[:8].hex()}: values outside a documented range are refused by the assertion at {v.msg}")
+            continue
         if k == "raise":
             rule = "optional/deref" if variant == "option0" and v.exc == "TypeError" else "shape/no-crash"
             kk = f"{hdap_family(raw, dname)} | {'TextMessageProtocol.option_data, zero-length option data' if variant == 'option0' else 'capture ' + raw[:8].hex()}"
